@@ -71,7 +71,12 @@ def numeric(tier, seed):
     u3 = S("Barley", "Loam", seed=seed + 13, plant_md=(3, 5), year=2001, seasons=2, off_season=True)
     u3["crop"]["planting_date"] = "3/5"
     u3["crop"]["harvest_date"] = "11/2"
-    scs += [u1, u2, u3]
+    # a window that ends the day after the last planting date (the last season consists of one day), with a jump between seasons before it
+    e1 = S("Maize", "SandyLoam", seed=seed + 14, plant_md=(5, 1), year=2000, seasons=3)
+    e1["end"] = "2002/05/02"
+    e2 = S("Barley", "Loam", seed=seed + 15, plant_md=(3, 10), year=2001, seasons=2, lead=12)
+    e2["end"] = "2002/03/11"
+    scs += [u1, u2, u3, e1, e2]
     if tier == "thorough":
         for i in range(60):
             crop = rnd.choice([c for c in L.CROPS if L.MATURITY_CD[c] < 250])
